@@ -24,7 +24,8 @@ def matrix(ctx):
         for d in devs:
             for mag in MAGS:
                 for outm in ("temp", "path"):
-                    variants = {"options": 9, "options_reused": 9, "polygon": 9, "device": 4, "epsilon": 3, "currents_t": 2}.get(cls, 1)
+                    variants = {"options": 9, "options_reused": 9, "polygon": 9, "device": 4, "epsilon": 3, "currents_t": 2, "terminal": 8,
+                                "ashape": 16}.get(cls, 1)
                     for v in range(variants):
                         if cls in ("options", "options_reused", "polygon", "device", "terminal", "seed", "ashape") and mag != 1.0 \
                                 and not (cls in ("options", "options_reused") and v in (0, 1)) and not (cls == "polygon" and v >= 3):
@@ -127,13 +128,23 @@ def illposed_run(tdgl, p, base_tmp=None):
                     # constructed solver), copied/unpickled, and only THEN made inconsistent
                     reused = bad
             elif cls == "terminal":
+                # a terminal that touches no boundary: strictly inside the film, or outside it — whatever the
+                # currents say about it (balanced pair, None, omitted, explicit zero, callable)
                 layer = dev.layer
                 film = tdgl.Polygon("film", points=box(5, 3, points=48))
+                stray = (tdgl.Polygon("stray", points=box(0.3, 0.3, center=(0.4, 0.2))) if v % 2 == 0
+                         else tdgl.Polygon("stray", points=box(0.5, 0.5, center=(6.0, 4.0))))       # outside the film
                 terms = [tdgl.Polygon("source", points=box(0.1, 3, center=(-2.5, 0))),
-                         tdgl.Polygon("drain", points=box(0.3, 0.3, center=(0.4, 0.2)))]   # strictly inside the film
+                         tdgl.Polygon("drain", points=box(0.1, 3, center=(2.5, 0))), stray]
+                if v // 2 == 0:
+                    terms = [terms[0], stray]
                 dev = tdgl.Device("badterm", layer=layer, film=film, terminals=terms, probe_points=[(-1.5, 0), (1.5, 0)])
                 dev.make_mesh(max_edge_length=0.8)
-                solve_kw["terminal_currents"] = {"source": 1.0, "drain": -1.0}
+                solve_kw["terminal_currents"] = [{"source": 1.0, "stray": -1.0}, None, {"source": 1.0, "drain": -1.0},
+                                                 {"source": 1.0, "drain": -1.0, "stray": 0.0}][v // 2]
+                if v // 2 == 3:
+                    cur = dict(solve_kw["terminal_currents"])
+                    solve_kw["terminal_currents"] = lambda t, cur=cur: dict(cur)
             elif cls == "seed":
                 other = devices.make(tdgl, "bar" if p["dev"] != "bar" else "barhole", probes=2)
                 o2 = tdgl.SolverOptions(**dict(kw, output_file=None))
@@ -151,9 +162,21 @@ def illposed_run(tdgl, p, base_tmp=None):
                     tempfile.tempdir = str(tempd)
                 solve_kw["seed_solution"] = seed
             elif cls == "ashape":
-                def badA(x, y, z):
-                    return np.zeros((len(x) + 1, 3))
-                solve_kw["applied_vector_potential"] = badA
+                # a vector potential of the wrong shape, including shapes that numpy would happily broadcast
+                shapes = ["n+1,3", "n", "n,1", "1,3", "3", "0d", "n,3,1", "3,n"]
+                shp = shapes[v % len(shapes)]
+
+                def badA(x, y, z, shp=shp):
+                    n = len(x)
+                    return {"n+1,3": np.zeros((n + 1, 3)), "n": 0.1 * np.ones(n), "n,1": 0.1 * np.ones((n, 1)),
+                            "1,3": 0.1 * np.ones((1, 3)), "3": 0.1 * np.ones(3), "0d": np.float64(0.1),
+                            "n,3,1": np.zeros((n, 3, 1)), "3,n": np.zeros((3, n))}[shp]
+                # (a tdgl.Parameter squeezes what its function returns, so (n,3,1) is a legal shape there)
+                if v >= len(shapes) and shp == "n,3,1":
+                    shp2 = "n+1,3"
+                    solve_kw["applied_vector_potential"] = tdgl.Parameter(lambda x, y, z: np.zeros((len(x) + 1, 3)))
+                else:
+                    solve_kw["applied_vector_potential"] = badA if v < len(shapes) else tdgl.Parameter(badA)
             elif cls == "polygon":
                 if v == 0:
                     tdgl.Polygon("bow", points=[(0, 0), (1, 1), (1, 0), (0, 1)])       # self-intersecting
